@@ -218,6 +218,12 @@ impl Ctx {
         let _ = writeln!(self.out, "{}", v);
     }
 
+    /// A harness-side problem (wall-clock guard fired, environment trouble): makes the run INCONCLUSIVE, never a violation.
+    pub fn problem(&mut self, text: &str) {
+        self.emit(json!({"k": "problem", "text": text}));
+        let _ = self.out.flush();
+    }
+
     pub fn count(&mut self, name: &str, n: u64) {
         *self.counts.entry(name.to_string()).or_insert(0) += n;
     }
